@@ -1,7 +1,10 @@
 // C13 — compile-time evaluation equals run-time execution.   Engine E4 (generated program): gen/C13_gen.py writes
-// C13_gen_<part>.hpp into the build directory (constexpr argument tables + the list C13_OBLIGATIONS of
-// (function, table) instantiations); this file is compiled once per part and optimisation level
-// (-DC13_PART_<PART>, -O0 / -O2 appended by the registry).
+// C13_gen_<parts>.hpp into the build directory (constexpr argument tables + the list C13_OBLIGATIONS of
+// (function, table) instantiations).  This one source is compiled into six harnesses (props/registry.d/C13.json):
+// three groups of parts (-DC13_PART_<PART>..., -DC13_GEN_HEADER="...") x two optimisation levels (-O2 / -O0 appended
+// after bin/check's -O1).  Parts: CM64 CM32 CMLD (cmath double/float/long double), INT8 NUM8 (8-bit exhaustive: cctype,
+// bit, numeric), W1632 W64 (wider integers, bit_cast), CSTR (C strings, string_view, char_traits), SCEN (constexpr digests
+// of container / string / charconv / algorithm / chrono / bitset histories).
 //
 // For every obligation (function F, argument tuple a):
 //   compile time : F::call(a) is evaluated by the compiler into a constexpr table.  Tables are built block-wise; every
@@ -13,12 +16,19 @@
 //   oracle       : bit pattern of the compile-time result == bit pattern of the run-time result (all NaNs are one value)
 //                  and the constant evaluation succeeded.  NOT compared with libm / std (C16, C14, C18 do that).
 // Only arguments inside the documented domain are generated (F::dom): lrint/llrint only where the rounded value fits,
-// bit_ceil only where the result is representable, div_sat y != 0, gcd/lcm |m|,|n|,lcm representable, *_bit pos < digits.
-// etl::memchr/memcmp are `inline`, not constexpr, on this tree: not part of the check (char_traits::find/compare, which
-// share their loops and are constexpr, are).  Long double overloads: arguments hi + lo of two doubles, result compared
-// through an exact (double, remainder) digest; the extended exponent range is not visited.
+// bit_ceil only where the result is representable, div_sat / fmod / remainder y != 0, gcd/lcm |m|,|n|,lcm representable,
+// *_bit pos < digits, no IEEE overflow / invalid-operation inputs (GCC rejects those in constant expressions whatever the
+// library does).  etl::memchr/memcmp are `inline`, not constexpr, on this tree: not part of the check
+// (char_traits::find/compare, which share their loops and are constexpr, are).  Long double overloads: arguments hi + lo
+// of two doubles, result compared through an exact (double, remainder) digest; the extended exponent range is not visited.
+// Compiler budgets (registry flags): -fconstexpr-depth=4096 -fconstexpr-ops-limit=100000000 (per block of <= 1024
+// obligations, and again per bisected half) -fconstexpr-loop-limit=65536 (no generated argument makes a library loop run
+// longer; a non-terminating constant evaluation becomes a recorded failure instead of an endless build).
 //
+// Known deviations are exclusion classes (F::excl -> tag): an obligation of a class is skipped only when bin/check passes
+// the tag (--exclude), i.e. while a matching open entry of known_findings.json still reproduces; replay ignores tags.
 // Case string: "function|0xARG0,0xARG1,0xARG2" (bit patterns; strings packed little-endian, NUL-terminated, in one word).
+// Developer aid: C13_LIST=1 ./harness --mode run ...  prints every failing obligation with its class instead of stopping.
 #include <etl/algorithm.hpp>
 #include <etl/array.hpp>
 #include <etl/bit.hpp>
@@ -465,10 +475,12 @@ constexpr auto pos_zero(T v) -> bool { return v == 0 && !neg_zero(v); }
 //                              rint is not constant-evaluable for NaN, infinities and |x| >= 2^63
 //   cmath.round.ct_huge        floor/ceil/trunc/round (and fmod through trunc(x/y)) are not constant expressions once the
 //                              value does not fit long long
-//   cmath.round.ct_tiny        floor/trunc/round return x itself for 0 < |x| < epsilon in a constant expression
+//   cmath.round.ct_tiny        floor/ceil/trunc/round return x itself for 0 < |x| < epsilon in a constant expression
 //   cmath.fdim.ct_inf_minus_inf  fdim(inf, inf) computes inf - inf: not a constant expression
-//   cmath.fmod.ct_quotient_overflow  fmod is x - trunc(x/y)*y: not a constant expression when x/y (or the product) overflows
-//   cmath.trunc.ct_negzero     trunc(x), -1 < x < 0, is +0.0 in a constant expression and -0.0 at run time
+//   cmath.fmod.ct_formula      fmod is x - trunc(x/y)*y in a constant expression (and __builtin_fmod at run time): inexact
+//                              once trunc(x/y)*y rounds, not a constant expression when x/y or the product overflows
+//   cmath.remainder.ct_is_fmod remainder is the same fmod formula in a constant expression (and __builtin_remainder at run time)
+//   cmath.round.ct_negzero     trunc(x) and ceil(x), -1 < x < 0, are +0.0 in a constant expression and -0.0 at run time
 //   cmath.fma.ct_unfused       fma is x*y+z with two roundings in a constant expression
 //   cmath.round.ld_rounds_to_2p63  round(long double) for 2^63 - .5 <= |x| < 2^63 is not a constant expression
     #define C13_HUGE(v) ((is_fin(v) && !fits_ll(v)) ? "cmath.round.ct_huge" : (v != 0 && mag(v) < std::numeric_limits<decltype(v)>::epsilon()) ? "cmath.round.ct_tiny" : kNoTag)
@@ -528,22 +540,35 @@ auto fma_excl(T x, T y, T z) -> char const*
     T const u    = p + z;
     return res(fused(x, y, z)) != res(u) ? "cmath.fma.ct_unfused" : kNoTag;
 }
+constexpr auto rt_fmod(float x, float y) -> float { return __builtin_fmodf(x, y); }
+constexpr auto rt_fmod(double x, double y) -> double { return __builtin_fmod(x, y); }
+constexpr auto rt_remainder(float x, float y) -> float { return __builtin_remainderf(x, y); }
+constexpr auto rt_remainder(double x, double y) -> double { return __builtin_remainder(x, y); }
+// etl::fmod and etl::remainder are gcem's x - trunc(x / y) * y in a constant expression: exactly the arguments for which
+// that formula (evaluated here at run time, unfolded) is not the exact answer, or overflows on the way, form the class
 template <typename T>
-auto fmod_excl(T x, T y) -> char const*
+auto formula_excl(T x, T y, T exact, char const* tag) -> char const*
 {
-    // etl::fmod is x - trunc(x / y) * y: the quotient (or its product with y) overflows -> never a constant expression;
-    // a finite quotient that does not fit long long -> not a constant expression before C13-42
+    if (is_fin(x) && is_inf(y)) { return tag; } // the answer is x, the formula's guard says NaN
     if (!is_fin(x) || !is_fin(y) || y == 0) { return kNoTag; }
     T volatile q = x / y;
-    if (!is_fin(static_cast<T>(q))) { return "cmath.fmod.ct_quotient_overflow"; }
-    T volatile p = __builtin_trunc(static_cast<double>(q)) * static_cast<double>(y);
-    if (!is_fin(static_cast<T>(p))) { return "cmath.fmod.ct_quotient_overflow"; }
+    if (!is_fin(static_cast<T>(q))) { return tag; }
+    if (q != 0 && mag(static_cast<T>(q)) < std::numeric_limits<T>::epsilon()) { return "cmath.round.ct_tiny"; } // gcem::trunc(q) == q there
+    T volatile t = static_cast<T>(__builtin_trunc(static_cast<double>(q)));
+    T volatile p = t * y;
+    if (!is_fin(static_cast<T>(p))) { return tag; }
+    T const u = x - p;
+    if (res(u) != res(exact)) { return tag; }
     return !fits_ll(static_cast<T>(q)) ? "cmath.round.ct_huge" : kNoTag;
 }
+template <typename T>
+auto fmod_excl(T x, T y) -> char const* { return formula_excl(x, y, rt_fmod(x, y), "cmath.fmod.ct_formula"); }
+template <typename T>
+auto remainder_excl(T x, T y) -> char const* { return formula_excl(x, y, rt_remainder(x, y), "cmath.remainder.ct_is_fmod"); }
     #define C13_CMATH(S, T)                                                                                                                      \
         C13_FN1(floor_##S, "floor." #S, "cmath", T, true, C13_HUGE(x), etl::floor(x))                                                            \
-        C13_FN1(ceil_##S, "ceil." #S, "cmath", T, true, ((is_fin(x) && !fits_ll(x)) ? "cmath.round.ct_huge" : kNoTag), etl::ceil(x))                                                               \
-        C13_FN1(trunc_##S, "trunc." #S, "cmath", T, true, (C13_HUGE(x) != kNoTag ? C13_HUGE(x) : (x < 0 && x > -1) ? "cmath.trunc.ct_negzero" : kNoTag), etl::trunc(x)) \
+        C13_FN1(ceil_##S, "ceil." #S, "cmath", T, true, (C13_HUGE(x) != kNoTag ? C13_HUGE(x) : (x < 0 && x > -1) ? "cmath.round.ct_negzero" : kNoTag), etl::ceil(x))                                                               \
+        C13_FN1(trunc_##S, "trunc." #S, "cmath", T, true, (C13_HUGE(x) != kNoTag ? C13_HUGE(x) : (x < 0 && x > -1) ? "cmath.round.ct_negzero" : kNoTag), etl::trunc(x)) \
         C13_FN1(round_##S, "round." #S, "cmath", T, true, ((is_fin(x) && mag(x) >= T(9223372036854775808.0)) ? "cmath.round.ct_huge" : C13_HUGE(x)), etl::round(x))                                                            \
         C13_FN1(rint_##S, "rint." #S, "cmath", T, true, ((!is_integral_value(x) || neg_zero(x)) ? "cmath.rint.ct_truncates" : kNoTag), etl::rint(x)) \
         C13_FN1(lrint_##S, "lrint." #S, "cmath", T, fits_ll(x), (!is_integral_value(x) ? "cmath.rint.ct_truncates" : kNoTag), etl::lrint(x))      \
@@ -559,6 +584,7 @@ auto fmod_excl(T x, T y) -> char const*
         C13_FN2(fmax_##S, "fmax." #S, "cmath", T, T, true, kNoTag, etl::fmax(x, y))                                                              \
         C13_FN2(fdim_##S, "fdim." #S, "cmath", T, T, fdim_dom(x, y), ((is_inf(x) && is_inf(y) && ((x < 0) == (y < 0))) ? "cmath.fdim.ct_inf_minus_inf" : kNoTag), etl::fdim(x, y))                                                              \
         C13_FN2(fmod_##S, "fmod." #S, "cmath", T, T, (y != 0), fmod_excl(x, y), etl::fmod(x, y)) \
+        C13_FN2(remainder_##S, "remainder." #S, "cmath", T, T, (y != 0 && !is_inf(x)), remainder_excl(x, y), etl::remainder(x, y))                                  \
         C13_FN2(nextafter_##S, "nextafter." #S, "cmath", T, T, true, kNoTag, etl::nextafter(x, y))                                               \
         C13_FN2(midpoint_##S, "midpoint." #S, "cmath", T, T, midpoint_dom(x, y), kNoTag, etl::midpoint(x, y))                                                  \
         C13_FN3(fma_##S, "fma." #S, "cmath", T, T, T, fma_dom(x, y, z), fma_excl(x, y, z), etl::fma(x, y, z))
@@ -585,7 +611,7 @@ constexpr auto ld_negzero(ldbl v) -> bool { return v == 0 && __builtin_signbit(v
     #define C13_LD1(F, DOM, EXCL) C13_FN2(F##_ld, #F ".ld", "cmath", LD, LDlo, DOM, EXCL, etl::F(ld(x, y)))
 C13_LD1(floor, true, ld_huge(ld(x, y)))
 C13_LD1(ceil, true, ((ld_huge(ld(x, y)) != kNoTag && ld(x, y) != 0 && !((ld(x, y) < 0 ? -ld(x, y) : ld(x, y)) < LDBL_EPSILON)) ? "cmath.round.ct_huge" : kNoTag))
-C13_LD1(trunc, true, (ld_huge(ld(x, y)) != kNoTag ? ld_huge(ld(x, y)) : (ld(x, y) < 0 && ld(x, y) > -1) ? "cmath.trunc.ct_negzero" : kNoTag))
+C13_LD1(trunc, true, (ld_huge(ld(x, y)) != kNoTag ? ld_huge(ld(x, y)) : (ld(x, y) < 0 && ld(x, y) > -1) ? "cmath.round.ct_negzero" : kNoTag))
 // gcem::round casts floor(|x|) + 1 to long long: |x| in [2^63 - .5, 2^63) is representable only as a long double
 C13_LD1(round, true, ((ld_fin(ld(x, y)) && (ld(x, y) < 0 ? -ld(x, y) : ld(x, y)) >= 9223372036854775807.5L && (ld(x, y) < 0 ? -ld(x, y) : ld(x, y)) < 9223372036854775808.0L) ? "cmath.round.ld_rounds_to_2p63" : ld_huge(ld(x, y))))
 C13_LD1(rint, true, ((!ld_integral(ld(x, y)) || ld_negzero(ld(x, y))) ? "cmath.rint.ct_truncates" : kNoTag))
